@@ -73,24 +73,58 @@ Section G.
 End G.
 
 (* ---- the non-atomic fallback of tryMarkAsUsed (store without SetNX): Exists, then Set, under a mutex
-   that belongs to the GENERATOR INSTANCE.  Two steps per attempt; `inst` names the instance. ---- *)
-Inductive fpc := FIdle | FChecked (c : id) | FDone (c : id) | FTaken.
-Record fgen := { f_inst : nat; f_cand : id; f_pc : fpc }.
+   that belongs to the GENERATOR INSTANCE.  Two steps per attempt; `inst` names the instance.  Either storage
+   call may fail (f_faults, one entry per call of this caller, true = the call returns an error): the attempt is
+   then abandoned without handing out the candidate (tryMarkAsUsed returns (false, err)).  `lenient = true` is
+   the variant that treats a failing Exists as "not taken" and goes on to Set (the shape of seeded change C15-7). ---- *)
+Inductive fpc := FIdle | FChecked (c : id) | FDone (c : id) | FTaken | FErr.
+Record fgen := { f_inst : nat; f_cand : id; f_faults : list bool; f_pc : fpc }.
 Record fshared := { f_marks : markers; f_locks : nat -> bool }.
 
-Definition fstep (g : fgen) (s : fshared) : fgen * fshared :=
+Definition f_next_fault (g : fgen) : bool * list bool :=
+  match f_faults g with [] => (false, []) | f :: fs => (f, fs) end.
+
+Definition fstep_gen (lenient : bool) (g : fgen) (s : fshared) : fgen * fshared :=
   match f_pc g with
   | FIdle =>
       if f_locks s (f_inst g) then (g, s)                                  (* mutex held by a sibling: blocked *)
       else
+        let '(f, fs) := f_next_fault g in
         let s' := {| f_marks := f_marks s; f_locks := fun k => if Nat.eqb k (f_inst g) then true else f_locks s k |} in
-        if f_marks s (f_cand g)
-        then ({| f_inst := f_inst g; f_cand := f_cand g; f_pc := FTaken |},
+        if f && negb lenient
+        then ({| f_inst := f_inst g; f_cand := f_cand g; f_faults := fs; f_pc := FErr |},
+              {| f_marks := f_marks s; f_locks := f_locks s |})             (* Exists failed: unlock, report the error *)
+        else if negb f && f_marks s (f_cand g)
+        then ({| f_inst := f_inst g; f_cand := f_cand g; f_faults := fs; f_pc := FTaken |},
               {| f_marks := f_marks s; f_locks := f_locks s |})             (* Exists = true: unlock, report taken *)
-        else ({| f_inst := f_inst g; f_cand := f_cand g; f_pc := FChecked (f_cand g) |}, s')
+        else ({| f_inst := f_inst g; f_cand := f_cand g; f_faults := fs; f_pc := FChecked (f_cand g) |}, s')
   | FChecked c =>
-      ({| f_inst := f_inst g; f_cand := f_cand g; f_pc := FDone c |},
-       {| f_marks := mark (f_marks s) c true;
-          f_locks := fun k => if Nat.eqb k (f_inst g) then false else f_locks s k |})   (* Set; unlock *)
+      let '(f, fs) := f_next_fault g in
+      if f
+      then ({| f_inst := f_inst g; f_cand := f_cand g; f_faults := fs; f_pc := FErr |},
+            {| f_marks := f_marks s;
+               f_locks := fun k => if Nat.eqb k (f_inst g) then false else f_locks s k |})   (* Set failed; unlock *)
+      else ({| f_inst := f_inst g; f_cand := f_cand g; f_faults := fs; f_pc := FDone c |},
+            {| f_marks := mark (f_marks s) c true;
+               f_locks := fun k => if Nat.eqb k (f_inst g) then false else f_locks s k |})   (* Set; unlock *)
   | _ => (g, s)
   end.
+Definition fstep := fstep_gen false.
+Definition fstep_lenient := fstep_gen true.
+
+(* ---- UUID-based generators (uuid_generator.go: connection, tunnel and mapping-instance ids; no store involved):
+   an id is one entropy draw (uuid.NewV7); when that draw fails (None) the generator falls back to a second draw
+   (uuid v4).  `shadow = true` is the variant whose fallback result is lost and the nil UUID (0) is returned (the
+   shape of seeded change C15-9).  Two failing draws in a row: uuid.New() panics in the real code — the run stops. ---- *)
+Fixpoint ugen (shadow : bool) (n : nat) (draws : list (option id)) : list id :=
+  match n with
+  | O => []
+  | S k =>
+      match draws with
+      | [] => []
+      | Some d :: r => d :: ugen shadow k r
+      | None :: Some d :: r => (if shadow then 0%N else d) :: ugen shadow k r
+      | None :: _ => []
+      end
+  end.
+Definition somes (draws : list (option id)) : list id := flat_map (fun o => match o with Some d => [d] | None => [] end) draws.
